@@ -1,9 +1,41 @@
-// c03 harness: real scheduling cycles (allocate / backfill with the real gang, priority and
-// proportion plugins) against the action skeleton model; law selector 103.
+// c03 harness.
+//   sel 1   real scheduling cycles (allocate / backfill with the real gang, priority and proportion
+//           plugins) against the action skeleton model; law selector 103 (shared cycle harness).
+//   sel 2/3 queue votes of the capacity (flat, hierarchical) and proportion plugins against
+//           coq/theories/C03/CapacityModel.v; laws 110-114 (votes.go, gen.go).
 package main
 
-import "verif/harness/internal/sched"
+import (
+	"verif/harness/internal/sched"
+	"verif/harness/internal/vh"
+)
 
 func main() {
-	sched.CycleHarness(103, true).Main()
+	cyc := sched.CycleHarness(103, true)
+	var last voteRun
+	h := vh.Harness{
+		Run2: func(sel int, in []int64) ([]int64, []int64) {
+			if sel == 1 {
+				return cyc.Run2(sel, in)
+			}
+			modelIn, got, vr := runVotes(in)
+			last = vr
+			return modelIn, got
+		},
+		Laws: func(sel int, in, got []int64, law func(lsel int, lin []int64, sig string)) {
+			if sel == 1 {
+				cyc.Laws(sel, in, got, law)
+				return
+			}
+			li := last.lawInput()
+			for _, lsel := range []int{110, 111, 112, 113, 114} {
+				law(lsel, li, "")
+			}
+		},
+		Gen: func(rng *vh.Rng, n int, emit func(id string, sel int, in []int64, kind string, nontrivial bool, desc any)) {
+			cyc.Gen(rng, n, emit)
+			genVoteStream(rng.Fork(), 4*n, emit)
+		},
+	}
+	h.Main()
 }
